@@ -8,7 +8,7 @@ full density range, structured families, disjoint unions, isolated nodes).
 import numpy as np
 from hypothesis import strategies as st
 
-from vp.pbt import SubCheck
+from vp.pbt import SubCheck, sel
 from vp.gen import graphs as G
 from vp.ref import graph as R
 
@@ -226,7 +226,7 @@ def oracle_basic(case, rec):
     ok, val = rec.call("matching_index_raises", net.matching_index)
     if ok:
         m = ~np.isnan(mi)
-        rec.close(np.asarray(val)[m], mi[m], "matching_index")
+        rec.close(sel(val, m), mi[m], "matching_index")
     plan.cmp(net, "coreness", R.coreness(A), "coreness")
     ra = R.assortativity(A)
     if not np.isnan(ra):
@@ -286,7 +286,7 @@ def oracle_basic(case, rec):
                            net.weighted_local_clustering, Wm)
         if ok:
             m = ~np.isnan(ref_w)
-            rec.close(np.asarray(val, dtype=float)[m], ref_w[m],
+            rec.close(sel(np.asarray(val, dtype=float), m), ref_w[m],
                       "weighted_local_clustering")
     # --- unit weights: documented relations to the unweighted measures
     ok, res = rec.call("construct_unit", make, case, False)
@@ -299,7 +299,7 @@ def oracle_basic(case, rec):
                           unit.nsi_local_clustering, typical_weight=1.0)
         if ok2:
             m = k >= 2
-            rec.close(np.asarray(c)[m], R.local_clustering(A)[m],
+            rec.close(sel(c, m), R.local_clustering(A)[m],
                       "unit_corrected_nsi_local_clustering")
     plan.run()
 
